@@ -312,9 +312,9 @@ pub fn run(ctx: &Ctx) {
     }
     let (n, nth) = seq_space(TAGS, tag_len);
     ctx.exhaustive(&format!("tags_len{tag_len}"), n, nth, total);
-    ctx.random("soup", ctx.pick(150_000, 3_000_000), soup, total);
-    ctx.random("mutated_wellformed", ctx.pick(100_000, 2_000_000), mutated, total);
+    ctx.random("soup", ctx.pick(300_000, 3_000_000), soup, total);
+    ctx.random("mutated_wellformed", ctx.pick(250_000, 2_000_000), mutated, total);
     ctx.random("deep_nesting", ctx.pick(5_000, 100_000), deep, total);
     ctx.cases("invalid_fixed", invalid_fixed(), must_err);
-    ctx.random("invalid_generated", ctx.pick(40_000, 600_000), invalid, must_err);
+    ctx.random("invalid_generated", ctx.pick(100_000, 600_000), invalid, must_err);
 }
